@@ -5,6 +5,12 @@ replaying counterexamples on the unmodified default build (C decimalfp).
 """
 from __future__ import annotations
 
+import sys as _sys
+try:
+    _sys.set_int_max_str_digits(0)
+except AttributeError:
+    pass
+
 from fractions import Fraction
 
 from decimalfp import Decimal
